@@ -19,6 +19,54 @@ func genShape(repo string) (*leanFile, error) {
 	lf := &leanFile{name: "Shape.lean"}
 	lf.pf("namespace Dblib.Gen.Shape\n\n")
 
+	// the functions of the package reachable from an entry point through calls inside the package (helpers
+	// a maintainer may extract belong to the function they were extracted from)
+	declOf := map[types.Object]*ast.FuncDecl{}
+	for _, f := range p.files {
+		for _, d := range f.Decls {
+			if fd, ok := d.(*ast.FuncDecl); ok && fd.Body != nil {
+				if obj := p.info.Defs[fd.Name]; obj != nil {
+					declOf[obj] = fd
+				}
+			}
+		}
+	}
+	reachable := func(entries ...*ast.FuncDecl) []*ast.FuncDecl {
+		seen := map[*ast.FuncDecl]bool{}
+		var order []*ast.FuncDecl
+		todo := append([]*ast.FuncDecl{}, entries...)
+		for len(todo) > 0 {
+			fd := todo[0]
+			todo = todo[1:]
+			if fd == nil || seen[fd] {
+				continue
+			}
+			seen[fd] = true
+			order = append(order, fd)
+			ast.Inspect(fd.Body, func(n ast.Node) bool {
+				var id *ast.Ident
+				switch x := n.(type) {
+				case *ast.CallExpr:
+					switch f := x.Fun.(type) {
+					case *ast.Ident:
+						id = f
+					case *ast.SelectorExpr:
+						id = f.Sel
+					}
+				case *ast.SelectorExpr: // method values (p.mint passed as a function)
+					id = x.Sel
+				}
+				if id != nil {
+					if callee, ok := declOf[p.info.Uses[id]]; ok {
+						todo = append(todo, callee)
+					}
+				}
+				return true
+			})
+		}
+		return order
+	}
+
 	holdsRLock := func(fd *ast.FuncDecl) bool {
 		// first statements: recv.RLock(); defer recv.RUnlock()
 		if fd == nil || fd.Body == nil || len(fd.Body.List) < 2 {
@@ -97,40 +145,54 @@ func genShape(repo string) (*leanFile, error) {
 	lf.pf("/-- a second `Close` returns ErrChannelClosed before sending or closing anything -/\n")
 	lf.pf("def closeChecksClosedFirst : Bool := %v\n", earlyClosed)
 
-	// sendPackets: the context is checked before every packet write (select on ctx.Done() with the write in default)
+	// sendPackets: the context is checked before every packet write — inside the loop over the packets a
+	// non-blocking select (it has a default clause) whose `<-ctx.Done()` case returns stands before the
+	// call of sendPacket, which is in the default clause or after the select
 	sp := p.funcDecl("Channel", "sendPackets")
 	ctxChecked := false
 	if sp != nil {
+		loopBody := func(n ast.Node) *ast.BlockStmt {
+			switch l := n.(type) {
+			case *ast.RangeStmt:
+				return l.Body
+			case *ast.ForStmt:
+				return l.Body
+			}
+			return nil
+		}
 		ast.Inspect(sp.Body, func(n ast.Node) bool {
-			rs, ok := n.(*ast.RangeStmt)
-			if !ok || len(rs.Body.List) != 1 {
+			body := loopBody(n)
+			if body == nil {
 				return true
 			}
-			sel, ok := rs.Body.List[0].(*ast.SelectStmt)
-			if !ok {
-				return true
-			}
-			hasCtx, sendInDefault := false, false
-			for _, c := range sel.Body.List {
-				cc := c.(*ast.CommClause)
-				if cc.Comm == nil {
-					ast.Inspect(cc, func(m ast.Node) bool {
-						if ce, ok := m.(*ast.CallExpr); ok && strings.HasSuffix(exprStr(ce.Fun), ".sendPacket") {
-							sendInDefault = true
+			selPos, sendPos := token.NoPos, token.NoPos
+			for _, st := range body.List {
+				if sel, ok := st.(*ast.SelectStmt); ok && selPos == token.NoPos {
+					hasCtx, hasDefault := false, false
+					for _, c := range sel.Body.List {
+						cc := c.(*ast.CommClause)
+						if cc.Comm == nil {
+							hasDefault = true
+							continue
 						}
-						return true
-					})
-					continue
-				}
-				if es, ok := cc.Comm.(*ast.ExprStmt); ok && exprStr(es.X) == "<-ctx.Done()" {
-					if len(cc.Body) == 1 {
-						if _, ok := cc.Body[0].(*ast.ReturnStmt); ok {
-							hasCtx = true
+						if es, ok := cc.Comm.(*ast.ExprStmt); ok && exprStr(es.X) == "<-ctx.Done()" && len(cc.Body) > 0 {
+							if _, ok := cc.Body[len(cc.Body)-1].(*ast.ReturnStmt); ok {
+								hasCtx = true
+							}
 						}
 					}
+					if hasCtx && hasDefault {
+						selPos = sel.Pos()
+					}
 				}
+				ast.Inspect(st, func(m ast.Node) bool {
+					if ce, ok := m.(*ast.CallExpr); ok && strings.HasSuffix(exprStr(ce.Fun), ".sendPacket") && sendPos == token.NoPos {
+						sendPos = ce.Pos()
+					}
+					return true
+				})
 			}
-			if hasCtx && sendInDefault {
+			if selPos != token.NoPos && sendPos != token.NoPos && selPos < sendPos {
 				ctxChecked = true
 			}
 			return true
@@ -186,8 +248,11 @@ func genShape(repo string) (*leanFile, error) {
 	rf := p.funcDecl("Conn", "ReadFrom")
 	bare := 0
 	guarded := 0
-	if rf != nil {
-		ast.Inspect(rf.Body, func(n ast.Node) bool {
+	for _, rfd := range reachable(rf) {
+		if rfd.Recv == nil || len(rfd.Recv.List) != 1 || strings.TrimPrefix(exprStr(rfd.Recv.List[0].Type), "*") != "Conn" {
+			continue // the connection's error queue is only reachable through the connection
+		}
+		ast.Inspect(rfd.Body, func(n ast.Node) bool {
 			switch s := n.(type) {
 			case *ast.SelectStmt:
 				hasSend, hasCtx := false, false
@@ -218,42 +283,56 @@ func genShape(repo string) (*leanFile, error) {
 	lf.pf("/-- every send of the reader loop into the connection's error queue also watches the connection context -/\n")
 	lf.pf("def readerErrSendsGuarded : Bool := %v\n", rf != nil && bare == 0 && guarded > 0)
 
-	// getValidChannelId: the id is the result of one atomic read-modify-write of the counter
-	gv := p.funcDecl("Conn", "getValidChannelId")
-	atomicRMW, plainRead := false, false
-	if gv != nil {
-		ast.Inspect(gv.Body, func(n ast.Node) bool {
-			switch x := n.(type) {
-			case *ast.AssignStmt:
-				if len(x.Lhs) == 1 && exprStr(x.Lhs[0]) == "curId" && strings.Contains(exprStr(x.Rhs[0]), "atomic.AddUint32(&tds.tdsChannelCurFreeId") {
-					atomicRMW = true
-				}
-			case *ast.SelectorExpr:
-				if exprStr(x) == "tds.tdsChannelCurFreeId" {
-					plainRead = true // refined below: reads inside &… of an atomic call do not count
-				}
+	// the id counter: every mention of it in the package is the operand of `&` in an atomic add whose result
+	// is used (one atomic read-modify-write hands out the id; nothing loads or stores it separately)
+	occ, atomicOcc, usedResult := 0, 0, false
+	for _, fd := range declOf {
+		var stack []ast.Node
+		ast.Inspect(fd.Body, func(n ast.Node) bool {
+			if n == nil {
+				stack = stack[:len(stack)-1]
+				return true
 			}
-			return true
-		})
-		// count occurrences: every occurrence must be the operand of `&` in an atomic call
-		occ, atomicOcc := 0, 0
-		ast.Inspect(gv.Body, func(n ast.Node) bool {
-			if se, ok := n.(*ast.SelectorExpr); ok && exprStr(se) == "tds.tdsChannelCurFreeId" {
+			stack = append(stack, n)
+			if se, ok := n.(*ast.SelectorExpr); ok && se.Sel.Name == "tdsChannelCurFreeId" {
 				occ++
 			}
-			if ce, ok := n.(*ast.CallExpr); ok && strings.HasPrefix(exprStr(ce.Fun), "atomic.") {
+			// the constructor sets the counter to a constant before the connection is shared
+			if as, ok := n.(*ast.AssignStmt); ok && fd.Name.Name == "NewConn" && len(as.Lhs) == 1 && len(as.Rhs) == 1 {
+				if se, ok := as.Lhs[0].(*ast.SelectorExpr); ok && se.Sel.Name == "tdsChannelCurFreeId" {
+					if _, isConst := p.constInt(as.Rhs[0]); isConst {
+						occ--
+					}
+				}
+			}
+			if ce, ok := n.(*ast.CallExpr); ok && strings.HasPrefix(exprStr(ce.Fun), "atomic.Add") {
 				for _, a := range ce.Args {
-					if u, ok := a.(*ast.UnaryExpr); ok && u.Op == token.AND && exprStr(u.X) == "tds.tdsChannelCurFreeId" {
-						atomicOcc++
+					if u, ok := a.(*ast.UnaryExpr); ok && u.Op == token.AND {
+						if se, ok := u.X.(*ast.SelectorExpr); ok && se.Sel.Name == "tdsChannelCurFreeId" {
+							atomicOcc++
+							// the call is an operand of something (not an expression statement of its own)
+							for i := len(stack) - 2; i >= 0; i-- {
+								if _, isStmt := stack[i].(*ast.ExprStmt); isStmt {
+									break
+								}
+								if _, isAssign := stack[i].(*ast.AssignStmt); isAssign {
+									usedResult = true
+									break
+								}
+								if _, isRet := stack[i].(*ast.ReturnStmt); isRet {
+									usedResult = true
+									break
+								}
+							}
+						}
 					}
 				}
 			}
 			return true
 		})
-		plainRead = occ != atomicOcc
 	}
 	lf.pf("/-- a channel id is obtained by ONE atomic fetch-and-add of the id counter (no separate load) -/\n")
-	lf.pf("def idFetchIsAtomicRMW : Bool := %v\n", atomicRMW && !plainRead)
+	lf.pf("def idFetchIsAtomicRMW : Bool := %v\n", atomicOcc > 0 && occ == atomicOcc && usedResult)
 
 	// every access to the channel map happens between Lock/RLock and Unlock/RUnlock of tdsChannelsLock
 	unlocked := []string{}
@@ -266,6 +345,13 @@ func genShape(repo string) (*leanFile, error) {
 			var locks, unlocks, accesses []token.Pos
 			ast.Inspect(fd.Body, func(n ast.Node) bool {
 				switch x := n.(type) {
+				case *ast.DeferStmt:
+					// a deferred unlock releases at the end of the function
+					fn := exprStr(x.Call.Fun)
+					if strings.HasSuffix(fn, "tdsChannelsLock.Unlock") || strings.HasSuffix(fn, "tdsChannelsLock.RUnlock") {
+						unlocks = append(unlocks, fd.End())
+						return false
+					}
 				case *ast.CallExpr:
 					fn := exprStr(x.Fun)
 					if strings.HasSuffix(fn, "tdsChannelsLock.Lock") || strings.HasSuffix(fn, "tdsChannelsLock.RLock") {
@@ -312,8 +398,8 @@ func genShape(repo string) (*leanFile, error) {
 	}
 	nc := p.funcDecl("Conn", "NewChannel")
 	asserts := false
-	if nc != nil {
-		ast.Inspect(nc.Body, func(n ast.Node) bool {
+	for _, fd := range reachable(nc) {
+		ast.Inspect(fd.Body, func(n ast.Node) bool {
 			if ta, ok := n.(*ast.TypeAssertExpr); ok && exprStr(ta.Type) == "*HeaderOnlyPackage" {
 				asserts = true
 			}
@@ -327,18 +413,22 @@ func genShape(repo string) (*leanFile, error) {
 	// which functions of the package mention the receive-side / transmit-side state of a Channel
 	// (fields of the struct type Channel, resolved through the type checker): the duplex model
 	// (Model/Chan.lean) runs the two sides as independent components
-	touchedBy := func(fields ...string) []string {
+	var allDecls []*ast.FuncDecl
+	for _, f := range p.files {
+		for _, d := range f.Decls {
+			if fd, ok := d.(*ast.FuncDecl); ok && fd.Body != nil {
+				allDecls = append(allDecls, fd)
+			}
+		}
+	}
+	touchedByIn := func(decls []*ast.FuncDecl, fields ...string) []string {
 		want := map[string]bool{}
 		for _, f := range fields {
 			want[f] = true
 		}
 		seen := map[string]bool{}
-		for _, f := range p.files {
-			for _, d := range f.Decls {
-				fd, ok := d.(*ast.FuncDecl)
-				if !ok || fd.Body == nil {
-					continue
-				}
+		{
+			for _, fd := range decls {
 				name := fd.Name.Name
 				if fd.Recv != nil && len(fd.Recv.List) == 1 {
 					name = strings.TrimPrefix(exprStr(fd.Recv.List[0].Type), "*") + "." + name
@@ -376,10 +466,24 @@ func genShape(repo string) (*leanFile, error) {
 		}
 		return "[" + strings.Join(q, ", ") + "]"
 	}
-	lf.pf("/-- the functions that mention the receive-side state of a channel (`queueRx`, `lastPkgRx`) -/\n")
-	lf.pf("def rxStateTouchedBy : List String := %s\n", leanStrs(touchedBy("queueRx", "lastPkgRx")))
-	lf.pf("/-- the functions that mention the transmit-side state of a channel (`queueTx`, `lastPkgTx`, `curPacketNr`, `CurrentHeaderType`) -/\n")
-	lf.pf("def txStateTouchedBy : List String := %s\n", leanStrs(touchedBy("queueTx", "lastPkgTx", "curPacketNr", "CurrentHeaderType")))
+	rxFields := []string{"queueRx", "lastPkgRx"}
+	txFields := []string{"queueTx", "lastPkgTx", "curPacketNr", "CurrentHeaderType"}
+	lf.pf("/-- the functions that mention the receive-side state of a channel (`queueRx`, `lastPkgRx`) — for the reader -/\n")
+	lf.pf("def rxStateTouchedBy : List String := %s\n", leanStrs(touchedByIn(allDecls, rxFields...)))
+	lf.pf("/-- the functions that mention the transmit-side state of a channel (`queueTx`, `lastPkgTx`, `curPacketNr`, `CurrentHeaderType`) — for the reader -/\n")
+	lf.pf("def txStateTouchedBy : List String := %s\n", leanStrs(touchedByIn(allDecls, txFields...)))
+	// what the duplex theorem rests on, robust against helpers being extracted or inlined: nothing reachable
+	// from the calls of the sending side mentions receive-side state, nothing reachable from the reader's
+	// entry point mentions transmit-side state
+	txEntries := reachable(p.funcDecl("Channel", "QueuePackage"), p.funcDecl("Channel", "SendRemainingPackets"),
+		p.funcDecl("Channel", "SendPackage"), p.funcDecl("Channel", "Reset"))
+	rxEntries := reachable(p.funcDecl("Channel", "WritePacket"))
+	lf.pf("/-- functions reachable from QueuePackage / SendRemainingPackets / SendPackage / Reset that mention receive-side state -/\n")
+	lf.pf("def sendSideTouchesRxState : List String := %s\n", leanStrs(touchedByIn(txEntries, rxFields...)))
+	lf.pf("/-- functions reachable from WritePacket that mention transmit-side state -/\n")
+	lf.pf("def receiveSideTouchesTxState : List String := %s\n", leanStrs(touchedByIn(rxEntries, txFields...)))
+	lf.pf("/-- the entry points exist (an empty list above means \"none\", not \"not found\") -/\n")
+	lf.pf("def duplexEntriesFound : Bool := %v\n", len(txEntries) >= 4 && len(rxEntries) >= 1)
 	// callers of the exported setter of lastPkgRx inside the library
 	var setters []string
 	for _, f := range p.files {
